@@ -4,5 +4,6 @@ HERE="$(cd "$(dirname "$0")/.." && pwd)"
 cd "$HERE"
 for R in $(ls seeded/benign); do
   RES=$(tools/try_patch.sh "$HERE/seeded/benign/$R/patch.diff" 0 C04 C05 C06 C07 C08 C09 C10 C11 C13 C14 C16 C18 C19 C20 2>&1)
+  if echo "$RES" | grep -q "patch failed"; then echo "SKIPPED $R: patch does not apply to the current tree"; continue; fi
   if echo "$RES" | grep -q "exit=[12]"; then echo "ALARM $R:"; echo "$RES" | grep -E "VIOLATION|invariant=|HARNESS|exit=[12]" | cut -c1-300; else echo "quiet $R"; fi
 done
